@@ -253,7 +253,7 @@ func c17Run(vm *runtime.VM, k c17Case) (o c17Obs) {
 		ret, ctl := fn.Call(ctx)
 		if ctl != nil {
 			if _, ok := ctl.(*data.ThrowValue); ok {
-				return c17Obs{kind: "error", detail: tailStr(ctl.AsString(), 160)}
+				return c17Obs{kind: "error", detail: tailStr(ctl.AsString(), 160), recv: c17Captured}
 			}
 			return c17Obs{kind: "uncatchable", detail: fmt.Sprintf("%T %s", ctl, tailStr(ctl.AsString(), 120))}
 		}
@@ -371,6 +371,15 @@ func C17(c *Ctx) *kf.Report {
 						got = fmt.Sprintf("%v", o.recv[k.Sc.Vary-1].Interface())
 					}
 					rep.Add(kf.Mismatch{ID: id, Expected: "a catchable error (value not representable)", Observed: "Go received " + got, ObsKey: "delivered-altered", Input: in})
+				} else if len(o.recv) > 0 {
+					// GoBoundary.Call: an argument that does not fit => the Go function is NOT entered.  An error raised
+					// only afterwards (e.g. by the conversion of the echoed result) means Go ran with a value the script
+					// never passed.
+					got := "?"
+					if len(o.recv) >= k.Sc.Vary && k.Sc.Vary > 0 {
+						got = fmt.Sprintf("%v", o.recv[k.Sc.Vary-1].Interface())
+					}
+					rep.Add(kf.Mismatch{ID: id, Expected: "a catchable error before the Go function is entered", Observed: "Go was entered with " + got + ", error raised afterwards: " + tailStr(o.detail, 80), ObsKey: "entered-altered", Input: in})
 				}
 			case "delivered":
 				if o.kind != "delivered" {
